@@ -7,6 +7,7 @@ package props
 
 import (
 	"bytes"
+	"sort"
 	"strings"
 
 	"github.com/fluhus/biostuff/sequtil"
@@ -14,6 +15,28 @@ import (
 
 // sizeLadder: lengths around the powers of two that block-wise implementations use.
 var sizeLadder = []int{255, 256, 257, 1023, 1024, 1025, 4095, 4096, 4097, 8191, 8193, 12289, 16385, 65535, 65536, 65537, 70001, 131073}
+
+// sizeLadderLinear adds, for linear-time functions, the multiples of three and five of powers of
+// two (blocks of 3*2^k bases are whole codons and whole packed bytes at once) and their neighbours.
+var sizeLadderLinear = append(append([]int{}, sizeLadder...), 12287, 12288, 24576, 24577, 49151, 49152, 49153, 49154, 81920, 98304, 98305, 163840, 196608, 196609)
+
+// foreignPositions: where a foreign byte is put into a sequence of n bases on the ladder - the
+// ends, the middle, and just inside the leftover of n after whole blocks of 4 Ki, 16 Ki and 64 Ki.
+func foreignPositions(n int) []int {
+	set := map[int]bool{0: true, n - 1: true, n / 2: true, min(99, n-1): true}
+	for _, blk := range []int{4096, 16384, 65536} {
+		if r := n % blk; r > 0 {
+			set[r-1] = true
+			set[n-r] = true
+		}
+	}
+	var out []int
+	for p := range set {
+		out = append(out, p)
+	}
+	sort.Ints(out)
+	return out
+}
 
 // sizeLadderShort is the part of the ladder that is affordable for quadratic algorithms.
 var sizeLadderShort = []int{255, 256, 257, 1023, 1024, 1025, 1100}
